@@ -93,6 +93,16 @@ def cases(tier):
         for order in (("A", "H", "P", "Q", "B"), ("B", "Q", "P", "H", "A")):
             cs.append(F.diamondPP(d, [], end=4, order=order))
             cs.append(F.diamondPP([], [], end=4, order=order))
+    # one producer, a very slow and a trailing fast consumer: the producer runs far ahead, its output retains dozens of publications
+    for ch in ([], [F.TOK["S"]]):
+        c = F.fan3(ch, [], order=("A", "B", "C"))
+        c["comps"][0]["fixed"], c["comps"][1]["fixed"], c["comps"][2]["fixed"] = [1], [48], [1 / 3, 0.25]
+        c["end"], c["update_cap"] = 50, 20000
+        cs.append(c)
+        c2 = F.fan3(ch, [], order=("C", "B", "A"))
+        c2["comps"][0]["fixed"], c2["comps"][1]["fixed"], c2["comps"][2]["fixed"] = [0.75], [40], [0.4]
+        c2["end"], c2["update_cap"] = 42, 20000
+        cs.append(c2)
     # a very fine producer under a coarse consumer: thousands of publications between two pulls
     for ch in (([F.TOK["L"]], [F.TOK["A"]]) if "c01" == "c01" else ([F.TOK["N"]],)):
         c = F.pair(ch)
